@@ -57,6 +57,10 @@ SCENARIOS = {
     'stdin/none-relative-paths': (['--relative-paths'], PLAIN_DIFF, ['git', 'verif-neutral-parent'], None, None, 'None'),
     'stdin/git-diff-relative-paths-hyperlinks': (['--relative-paths', '--hyperlinks', '--line-numbers'], PLAIN_DIFF, ['git', 'diff'], None, None, 'GitDiff'),
     'known/git-show-relative-paths': (['--relative-paths', 'git', 'show'], None, ['git', 'verif-neutral-parent'], PLAIN_DIFF, 'GitShow', 'None'),
+    # global git options in front of the subcommand: the launched command is still the launched command
+    'known/git-no-pager-grep-vs-git-blame': (['git', '--no-pager', 'grep', '-n', 'fn'], None, ['git', 'blame', 'x.rs'], GIT_GREP_COLOR, 'GitGrep', 'GitBlame'),
+    'known/git-C-blame-vs-none': (['git', '-C', '.', 'blame', 'src/f.rs'], None, ['git', 'verif-neutral-parent'], BLAME, 'GitBlame', 'None'),
+    'known/git-c-diff-word-diff-vs-git-grep': (['--line-numbers', 'git', '-c', 'color.ui=always', 'diff', '--word-diff'], None, ['git', 'grep', 'x'], WORD_DIFF, 'GitDiff', 'GitGrep'),
     # delta launches a command it has no description for (nothing is published): queries must be answered by the
     # background determination, under every schedule, and never wait for ever
     'launched-unparsed/git-status-vs-git-grep': (['--line-numbers', 'git', 'status'], None, ['git', 'grep', '-n', 'x'], GREP_PLAIN, None, 'GitGrep'),
